@@ -286,7 +286,7 @@ func runInput(in *Input, class string) *Result {
 		labels = append(append([]Label{}, labels...), more...)
 		obs = append(obs, mobs...)
 	}
-	full := &Input{Bulks: in.Bulks, Queries: in.Queries, Labels: labels}
+	full := &Input{Bulks: in.Bulks, Queries: in.Queries, Labels: labels, Opts: in.Opts}
 	res := finish(e, full, obs, class)
 	return res
 }
@@ -301,7 +301,7 @@ func finish(e *Exec, in *Input, obs []Obs, class string) *Result {
 	e.Close()
 	curASTs = e.asts
 	cls, nontriv, counts := classify(in, obs)
-	if class == "" || class == "sched" || cls != "sched" {
+	if class == "" || class == "sched" || !strings.HasPrefix(cls, "sched") {
 		res.Class = cls
 	}
 	res.Nontrivial = nontriv
